@@ -7,7 +7,7 @@ import SqiModel.Intbig
 import SqiProofs.C17.Conv
 import SqiProofs.C17.Rand
 namespace SqiProofs.C17
-open SqiModel.Intbig SqiModel.CProg
+open SqiModel.Intbig SqiModel.CProg SqiModel.NumberTheory
 
 /-! ### small routines -/
 theorem gen_ibz_mod (r a b : Int) : SqiGen.Intbig.ibz_mod r a b = ibzMod a b := rfl
@@ -311,5 +311,143 @@ theorem gen_ibz_rand_interval (rand a b : Int) (stream : List Nat) :
         · rw [Int.sign_eq_one_of_pos h]; omega
       simp only [hsign]
   · omega
+
+/-! ### ibz_cornacchia_prime -/
+
+theorem cornLoop_ne_fail (bound : Int) : ∀ (n : Nat) (r2 r1 : Int), cornLoop bound n r2 r1 ≠ .fail := by
+  intro n
+  induction n with
+  | zero => intro r2 r1; simp [cornLoop]
+  | succ n ih =>
+    intro r2 r1
+    unfold cornLoop
+    split
+    · simp
+    · simp only; split
+      · exact ih _ _
+      · simp
+
+theorem ibzSqrt_ne_ub (a : Int) : ibzSqrt a ≠ .ub := by
+  unfold ibzSqrt; split
+  · simp
+  · simp only; split <;> simp
+
+theorem sign_nonneg_iff (x y : Int) : (x - y).sign ≥ 0 ↔ y ≤ x := by
+  rcases Int.lt_trichotomy (x - y) 0 with h | h | h
+  · rw [Int.sign_eq_neg_one_of_neg h]; omega
+  · rw [h]; simp; omega
+  · rw [Int.sign_eq_one_of_pos h]; omega
+
+/-- the Euclidean `while` loop of the translated code is `cornLoop` (projection on r0, prod) -/
+theorem while_corn (p : Int)
+    (f : Int × Int × Int × Int × Int → Option (Int × Int × Int × Int × Int))
+    (hf : ∀ a r0 prod r2 r1, f (a, r0, prod, r2, r1) =
+      if r1 = 0 then none else some (r2.tdiv r1, r2.tmod r1, r2.tmod r1 * r2.tmod r1, r1, r2.tmod r1)) :
+    ∀ (n : Nat) (a r0 prod r2 r1 : Int), p ≤ prod →
+      (whileFuelO (fun st : Int × Int × Int × Int × Int => decide ((st.2.2.1 - p).sign ≥ 0)) f n (a, r0, prod, r2, r1)).map
+          (fun st => (st.2.1, st.2.2.1))
+        = match cornLoop p n r2 r1 with
+          | .ok v => some v
+          | _ => none := by
+  intro n
+  induction n with
+  | zero =>
+    intro a r0 prod r2 r1 h
+    have : (prod - p).sign ≥ 0 := (sign_nonneg_iff prod p).mpr h
+    simp [whileFuelO, cornLoop, this]
+  | succ n ih =>
+    intro a r0 prod r2 r1 h
+    have hc : (prod - p).sign ≥ 0 := (sign_nonneg_iff prod p).mpr h
+    unfold whileFuelO cornLoop
+    simp only [hc, decide_true, if_true, hf]
+    by_cases h0 : r1 = 0
+    · simp [h0]
+    · simp only [h0, if_false]
+      by_cases hge : r2.tmod r1 * r2.tmod r1 ≥ p
+      · simp only [hge, if_true]
+        exact ih _ _ _ _ _ hge
+      · simp only [hge, if_false]
+        cases n with
+        | zero =>
+          have : ¬ ((r2.tmod r1 * r2.tmod r1 - p).sign ≥ 0) := fun h' => hge ((sign_nonneg_iff _ _).mp h')
+          simp [whileFuelO, this]
+        | succ m =>
+          have : ¬ ((r2.tmod r1 * r2.tmod r1 - p).sign ≥ 0) := fun h' => hge ((sign_nonneg_iff _ _).mp h')
+          simp [whileFuelO, this]
+
+/-- TIE T for `ibz_cornacchia_prime` (p = 2 branch, call of ibz_sqrt_mod_p, Euclidean `while` loop, exact-division /
+    perfect-square / final re-check with the short-circuit `res = res && …` chain), for p > 0 and n ≠ 0 -/
+theorem gen_ibz_cornacchia_prime (x y n p : Int) (hp : 0 < p) (hn : n ≠ 0) :
+    SqiGen.Intbig.ibz_cornacchia_prime x y n p = ibzCornacchiaPrime n p := by
+  unfold SqiGen.Intbig.ibz_cornacchia_prime ibzCornacchiaPrime
+  simp only [sign_sub_eq_zero, finish]
+  by_cases h2 : p = 2
+  · subst h2; by_cases h1 : n = 1 <;> simp [h1]
+  · simp only [h2, if_false]
+    rw [gen_ibz_sqrt_mod_p _ _ _ hp]
+    have hne : ibz_cmp p (ibz_set 2) ≠ 0 := by
+      show (p - 2).sign ≠ 0
+      rw [ne_eq, sign_sub_eq_zero]; exact h2
+    simp only [hne, ne_eq, not_false_eq_true, if_true, one_ne_zero]
+    have h00 : ibz_sub (ibz_set 0) n = 0 - n := rfl
+    rw [h00]
+    cases hs : ibzSqrtModP (0 - n) p with
+    | ub => rfl
+    | fail => simp
+    | ok v =>
+      simp only
+      let f : Int × Int × Int × Int × Int → Option (Int × Int × Int × Int × Int) := fun x =>
+        match ibz_div x.2.2.2.1 x.2.2.2.2 with
+        | none => none
+        | some (a, r0) => some (a, r0, ibz_mul r0 r0, ibz_copy x.2.2.2.2, ibz_copy r0)
+      have hstep : ∀ a r0 prod r2 r1 : Int, f (a, r0, prod, r2, r1)
+          = if r1 = 0 then none else some (r2.tdiv r1, r2.tmod r1, r2.tmod r1 * r2.tmod r1, r1, r2.tmod r1) := by
+        intro a r0 prod r2 r1
+        by_cases h0 : r1 = 0 <;> simp [f, h0, ibz_div]
+      have hw := while_corn p f hstep (p.natAbs + 2) 0 0 p v p (le_refl _)
+      cases hc : cornLoop p (p.natAbs + 2) v p with
+      | fail => exact absurd hc (cornLoop_ne_fail _ _ _ _)
+      | ub =>
+        rw [hc] at hw
+        cases hwl : whileFuelO (fun x : Int × Int × Int × Int × Int => decide (ibz_cmp x.2.2.1 p ≥ 0)) f (p.natAbs + 2)
+            (0, 0, ibz_copy p, v, ibz_copy p) with
+        | none => rfl
+        | some st =>
+          exfalso
+          have : (whileFuelO (fun st : Int × Int × Int × Int × Int => decide ((st.2.2.1 - p).sign ≥ 0)) f (p.natAbs + 2)
+              (0, 0, p, v, p)) = some st := hwl
+          rw [this] at hw; simp at hw
+      | ok rp =>
+        obtain ⟨r0', prod'⟩ := rp
+        rw [hc] at hw
+        cases hwl : whileFuelO (fun x : Int × Int × Int × Int × Int => decide (ibz_cmp x.2.2.1 p ≥ 0)) f (p.natAbs + 2)
+            (0, 0, ibz_copy p, v, ibz_copy p) with
+        | none =>
+          exfalso
+          have : (whileFuelO (fun st : Int × Int × Int × Int × Int => decide ((st.2.2.1 - p).sign ≥ 0)) f (p.natAbs + 2)
+              (0, 0, p, v, p)) = none := hwl
+          rw [this] at hw; simp at hw
+        | some st =>
+          have hst : (whileFuelO (fun st : Int × Int × Int × Int × Int => decide ((st.2.2.1 - p).sign ≥ 0)) f (p.natAbs + 2)
+              (0, 0, p, v, p)) = some st := hwl
+          rw [hst] at hw
+          simp only [Option.map_some, Option.some.injEq, Prod.mk.injEq] at hw
+          obtain ⟨a', r0'', prod'', r2', r1'⟩ := st
+          simp only at hw
+          obtain ⟨rfl, rfl⟩ := hw
+          simp only [ibz_div, hn, if_false, ibz_sub, ibz_is_zero, ibz_sqrt, ibz_copy, ibz_mul, ibz_add, ibz_cmp, cornFinish]
+          by_cases hr : (p - prod'').tmod n = 0
+          · simp only [hr, if_true, one_ne_zero, ne_eq, not_false_eq_true, not_true_eq_false, if_false]
+            cases hq : ibzSqrt ((p - prod'').tdiv n) with
+            | ub => exact absurd hq (ibzSqrt_ne_ub _)
+            | fail => simp
+            | ok yv =>
+              simp only [one_ne_zero, ne_eq, not_false_eq_true, if_true]
+              have hsg : (0 = (prod'' + yv * yv * n - p).sign) ↔ prod'' + yv * yv * n = p := by
+                rw [eq_comm, sign_sub_eq_zero]
+              by_cases hchk : prod'' + yv * yv * n = p
+              · simp [hsg, hchk]
+              · simp [hsg, hchk]
+          · simp [hr]
 
 end SqiProofs.C17
